@@ -97,8 +97,17 @@ class PROP(PropCheck):
                    b, a, draws, a, b, a, b, a, b)
         return Case(src, meta={"exp": "TRUE\nTRUE\nTRUE\n", "random": True})
 
+    def frac_random_case(self, a, b):
+        """RANDOM with fractional bounds: whatever integer range the bounds are taken to mean, the call ends normally or with a
+        diagnostic and a returned value is an integer between the bounds (rounded outward)"""
+        import math
+        src = (HEAD + "ok <- TRUE\nREPEAT 50 TIMES {\nx <- RANDOM(%s, %s)\nIF (x < %d OR x > %d OR x != FLOOR(x)) { ok <- FALSE }\n}\nDISPLAY(ok)\n"
+               % (a, b, math.floor(float(a)), math.ceil(float(b))))
+        return Case(src, meta={"exp": None, "random": True, "frac": True})
+
     def corpus(self):
-        out = [self.math_case("LOG", [8.0, 2.0]), self.math_case("ATAN2", [1.0, -1.0]), self.math_case("ROUND", [2.5]),
+        out = [self.frac_random_case(a, b) for a, b in [("0.2", "0.8"), ("2.5", "2.5"), ("0.5", "2.9"), ("-0.5", "0.5"), ("1.5", "1.2"), ("-2.5", "-2.5")]]
+        out += [self.math_case("LOG", [8.0, 2.0]), self.math_case("ATAN2", [1.0, -1.0]), self.math_case("ROUND", [2.5]),
                self.math_case("ROUND", [-2.5]), self.math_case("INT", [-2.7]), self.math_case("ROUND", [0.49999999999999994]),
                Case(HEAD + "DISPLAY(CLAMP(5, 1, 3))\nDISPLAY(CLAMP(0, 1, 3))\nDISPLAY(CLAMP(2, 3, 1))\nDISPLAY(PI())\nDISPLAY(E())\nDISPLAY(TAU())\n",
                     meta={"exp": "3\n1\n1\n3.141592653589793\n2.718281828459045\n6.283185307179586\n"}),
@@ -193,6 +202,10 @@ class PROP(PropCheck):
         r = R.parse_run(impl)
         if r["cls"] == "BUDGET":
             return None
+        if case.meta.get("frac"):
+            if r["cls"] == "RT":
+                return None
+            return None if r["cls"] == "OK" and r["out"] == "TRUE\n" else "RANDOM with fractional bounds returned a value outside the bounds or not an integer: " + (impl or "")[:80]
         if r["cls"] != "OK":
             return "the program did not complete: " + (impl or "")[:100]
         exp = case.meta.get("exp")
